@@ -1209,7 +1209,14 @@ func (p *c41part) explore(tg c41target) {
 	}
 	sort.Strings(labels)
 	for _, l := range labels {
-		cls("hostile", p.decode(typ, name, tg.hostile[l], "hand-made input: "+l))
+		o := p.decode(typ, name, tg.hostile[l], "hand-made input: "+l)
+		cls("hostile", o)
+		// inputs labelled "must-reject:" nest deeper than the decoder's depth budget
+		// (protocol.maxMsgpDecodeDepth = 255 nested UnmarshalMsgWithState calls)
+		if strings.HasPrefix(l, "must-reject:") && !o.panicked && o.err == nil {
+			p.report("C41:nesting-limit-not-enforced:"+name, fmt.Sprintf("%s: %s was ACCEPTED — the decoder's nesting limit is not enforced on this path", name, l),
+				map[string]any{"engine": "enum", "type": name, "what": l})
+		}
 	}
 	p.overBound(typ, name)
 }
